@@ -14,7 +14,8 @@ RULE = ("single transitions level i -> i+1 run in isolation through the real com
         "two and not), sizes k*chunk and k*chunk+1; all three downscalers, outside values, u8/u16/u32/f32, "
         "1-3 channels; np.empty poisoned with two patterns; the new level is read back and compared with the "
         "real downscaler applied to the whole previous level as one array; outcome (ok / error class) compared "
-        "with the per-axis Lean plan. Trivial = no axis is downscaled or single-chunk levels.")
+        "with the per-axis Lean plan; thorough tier: additionally ALL (old size 1..10, factor 1/2, old chunk 1..5, "
+        "new chunk 1..6) on each axis. Trivial = no axis is downscaled or single-chunk levels.")
 ASSUMPTIONS = [
     "the downscalers are block-local and correct on a whole array (C07); the chunk I/O layer is a map (C03)",
     "any exception counts as 'fails with an error' (ValueError, ZeroDivisionError, AssertionError)",
@@ -91,16 +92,35 @@ def gen_transition(rng):
     return info, "handmade-" + style
 
 
+def exhaustive_axis_cases(rng):
+    """thorough tier: ALL (old size 1..10, factor 1/2, old chunk 1..5, new chunk 1..6) on one axis, the two
+    other axes fixed to a small compatible pair - the finite neighbourhood of the per-axis theorems"""
+    mk = lambda key, size, cs: {"key": key, "encoding": "raw", "size": size, "resolution": [1, 1, 1],
+                                "voxel_offset": [0, 0, 0], "chunk_sizes": [cs]}
+    for axis in range(3):
+        for osz in range(1, 11):
+            for f in (1, 2):
+                for oc in range(1, 6):
+                    for nc in range(1, 7):
+                        o_size, n_size, o_cs, n_cs = [3, 3, 3], [2, 2, 2], [2, 2, 2], [1, 1, 1]
+                        o_size[axis], n_size[axis] = osz, -(-osz // f)
+                        o_cs[axis], n_cs[axis] = oc, nc
+                        info = {"type": "image", "data_type": rng.choice(["uint8", "uint16"]), "num_channels": 1,
+                                "scales": [mk("old", o_size, o_cs), mk("new", n_size, n_cs)]}
+                        yield info, "exhaustive-axis"
+
+
 def run(ctx):
     from neuroglancer_scripts import downscaling, dyadic_pyramid, precomputed_io
     rng = ctx.rng
     reqs, meta = [], []
     n_done = 0
-    budget = ctx.budget(90, 2500)
+    queue = list(exhaustive_axis_cases(rng)) if (ctx.tier == "thorough" and not ctx.search_mode) else []
+    budget = ctx.budget(90, 2500) + len(queue)
     attempts = 0
     while n_done < budget and attempts < 10 * budget:
         attempts += 1
-        g = gen_transition(rng)
+        g = queue.pop() if queue else gen_transition(rng)
         if g is None:
             continue
         info, origin = g
